@@ -70,6 +70,15 @@ pub fn run(tier: Tier) -> i32 {
     ];
     let mut others: Vec<FileSpec> = crate::files::deep_specs(tier);
     others.extend(crate::files::query_shape_specs(tier.pick(3, 4), false));
+    // several long keys per one-byte prefix: multi-entry prefix runs that cross data blocks and
+    // cut index blocks, in both directions (the reverse walk starts from the prefix's successor)
+    for (n, per_group) in [(18usize, 6usize), (24, 4), (27, 9)] {
+        for l in [0u8, 2, 3] {
+            for iv in [Some(1), None] {
+                others.push(FileSpec::new(FileCfg::layout(Some(1024), iv, l), EntrySpec::Grouped { n, per_group, klen: 600, vlen: 1 }));
+            }
+        }
+    }
     let n_uni = subsets.len() * cfgs.len();
     let deadline = Deadline::after(Duration::from_secs(tier.pick(50, 3000)));
     let acc = par_for(n_uni + others.len(), 16, &deadline, |i, acc| {
